@@ -245,6 +245,11 @@ pub fn fill_from_container(c: &jbk::reader::Container, job: &Job, d: &mut FDump)
         return;
     }
     for name in &job.index_names {
+        // "there is no index of that name" is an answer about structure, not an error
+        if let Ok(None) = c.get_directory_pack().get_index_from_name(name) {
+            d.indexes.insert(name.clone(), Acc::Ok(FIndex { store: u32::MAX, offset: 0, count: 0, entries: vec![] }));
+            continue;
+        }
         let oi = match open_index(c.get_directory_pack(), &|ix| ix.get_store(c.get_entry_storage()), c.get_value_storage(), name) {
             Ok(o) => o,
             Err(e) => {
